@@ -98,6 +98,7 @@ type Interp struct {
 	tainted      string
 	sched        *schedState
 	goInline     bool
+	mfs          *modelFS
 	gobVals      []Value
 	seenTerm     map[*Term]bool
 	constrained  map[string]bool
